@@ -366,10 +366,16 @@ class World:
             kw = dict(_context=buf.context)         # a fresh buffer of that context: not one of ours -> only usable for ref-free objects
             placement = "default"
             kw = dict(_buffer=buf)
-        elif placement == "explicit":
-            pass                                     # size is not known before construction without the library: use default
+        elif placement == "explicit" and not X.has_refs(tx) and not _unknown_cap(tx, inp) and value is None:
+            # the caller reserves the region itself and passes its offset (the size by the documented format)
+            try:
+                kw["_offset"] = int(buf.allocate(_size_of(tx, inp), align=rng.random() < 0.5))
+            except Exception:       # noqa
+                placement = "default"
         if tx["k"] == "struct" and rng.random() < 0.5:
             args, kwargs = (), dict(py)
+        elif isinstance(py, X.Dims):
+            args, kwargs = tuple(py), {}
         else:
             args, kwargs = (py,), {}
         exc, h = "", None
